@@ -432,6 +432,59 @@ theorem exit_progress (s : Lim) (h : Inv s) (p : Pos s) (i : Nat) (hi : i ∈ s.
       | cons a b => simp
     rw [hV, e.T]; omega
 
+/-- every op of the list is the exit of a task that holds a permit at that moment -/
+def exitsOnly (s : Lim) : List Op → Prop
+  | [] => True
+  | .exit i :: ops => i ∈ s.holders ∧ exitsOnly (step s (.exit i)).1 ops
+  | _ :: _ => False
+
+theorem served_within_aux (ops : List Op) : ∀ (s : Lim), Inv s → Pos s → exitsOnly s ops →
+    ids (run s ops).2 ++ (run s ops).1.waiters = s.waiters ∧
+    min (s.waiters.length : Int) ((ops.length : Int) - (s.V - s.T).toNat)
+      ≤ (ids (run s ops).2).length := by
+  induction ops with
+  | nil =>
+    intro s _ _ _
+    simp only [run, ids_nil, List.nil_append, List.length_nil]
+    exact ⟨trivial, by omega⟩
+  | cons op ops ih =>
+    intro s h p he
+    cases op with
+    | enter i => exact absurd he (by simp [exitsOnly])
+    | cancelWaiter i => exact absurd he (by simp [exitsOnly])
+    | setTarget n => exact absurd he (by simp [exitsOnly])
+    | exit i =>
+      obtain ⟨hi, he'⟩ := he
+      have f := step_facts s (.exit i) h
+      have p' := step_pos s (.exit i) h p (by intro n hn; cases hn)
+      obtain ⟨q2, l2⟩ := ih _ f.inv p' he'
+      have q1 : ids (step s (.exit i)).2 ++ (step s (.exit i)).1.waiters = s.waiters :=
+        fifo_admission s h (.exit i)
+      simp only [run, ids_append, List.length_append, List.length_cons]
+      refine ⟨by rw [List.append_assoc, q2, q1], ?_⟩
+      have hlen := congrArg List.length q1
+      simp only [List.length_append] at hlen
+      by_cases hw : s.waiters = []
+      · simp only [hw, List.length_nil]; omega
+      · have pr := (exit_progress s h p i hi hw).2.2
+        omega
+
+/-- **All waiters are eventually served — with a bound** (limits ≥ 1).  From any reachable state,
+let only holders leave (any holders, in any order; no new arrivals are needed and none can
+overtake — `fifo_admission`): after `n` such exits at least `min(|waiters|, n − excess)` waiters
+have been admitted, in queue order, where `excess = (V − T)⁺` is the capacity still to be retired
+after a reduction.  Hence the waiter at position `p` is admitted after at most `p + 1 + excess`
+exits, and by `no_starvation` a holder that can exit always exists while somebody waits. -/
+theorem served_within (s : Lim) (h : Inv s) (p : Pos s) (ops : List Op) (he : exitsOnly s ops)
+    (k : Nat) (hk : k < s.waiters.length) (hn : k + 1 + (s.V - s.T).toNat ≤ ops.length) :
+    ∃ x, s.waiters[k]? = some x ∧ (ids (run s ops).2)[k]? = some x := by
+  obtain ⟨q, l⟩ := served_within_aux ops s h p he
+  have hlen : k < (ids (run s ops).2).length := by omega
+  refine ⟨s.waiters[k], by simp [hk], ?_⟩
+  have : s.waiters[k]? = (ids (run s ops).2 ++ (run s ops).1.waiters)[k]? := by rw [q]
+  rw [List.getElem?_append_left hlen] at this
+  rw [← this]; simp [hk]
+
 /-- operations other than exits and `set_target` never push a waiter back: the excess does not
 grow (the queue part is `fifo_admission`). -/
 theorem rank_no_regress (s : Lim) (h : Inv s) (op : Op) (hop : op.isSetTarget = false) :
@@ -553,6 +606,13 @@ example : exitsDone (step (run (init 3) [.enter 0, .enter 1, .enter 2]).1 (.setT
 -- zero refuses, and the permit is not given back
 example : run (init 1) [.setTarget 0, .enter 0, .setTarget 1, .enter 1]
     = (⟨1, 1, 0, 1, [], [1]⟩, [.refused 0]) := by decide
+-- `served_within`: after a reduction 3 → 1 with three holders and two waiters, the first waiter
+-- (position 0) needs 0 + 1 + excess 2 = 3 exits
+example : exitsOnly (run (init 3) [.enter 0, .enter 1, .enter 2, .enter 3, .enter 4, .setTarget 1]).1
+    [.exit 0, .exit 1, .exit 2] ∧
+    (run (run (init 3) [.enter 0, .enter 1, .enter 2, .enter 3, .enter 4, .setTarget 1]).1
+      [.exit 0, .exit 1, .exit 2]).2 = [.entered 3] :=
+  ⟨⟨by decide, by decide, by decide, trivial⟩, by decide⟩
 -- hypotheses of `exit_progress` are satisfiable
 example : Pos (run (init 1) [.enter 0, .enter 1]).1 ∧ (run (init 1) [.enter 0, .enter 1]).1.waiters ≠ [] :=
   ⟨⟨by decide, by decide, by decide⟩, by decide⟩
